@@ -818,6 +818,15 @@ func (c *cenv) call(e *ast.CallExpr) Val {
 			return bval(or(not(eq("(sarr "+a.T+")", "(sarr "+b.T+")")),
 				"(bvsle (bvadd (soff "+a.T+") (scap "+a.T+")) (soff "+b.T+"))",
 				"(bvsle (bvadd (soff "+b.T+") (scap "+b.T+")) (soff "+a.T+"))"))
+		case "view":
+			x := c.expr(e.Args[0])
+			if x.K == KLoc && x.Typ != nil {
+				x = Val{K: KIface, T: fmt.Sprintf("(mkiface %d %s)", fv.eng.tagOf(x.Typ), x.T), Typ: x.Typ}
+			}
+			if x.K != KIface {
+				return c.fail("view() of non-object")
+			}
+			return c.view(x)
 		case "boolobj":
 			b := c.expr(e.Args[0])
 			return c.boolObj(b.T)
@@ -884,4 +893,64 @@ func (c *cenv) boolObj(b string) Val {
 	}
 	t := tv.Type().(*types.Pointer).Elem()
 	return Val{K: KIface, T: ite(b, fv.sentinelVal(st, t).T, fv.sentinelVal(sf, t).T), Typ: t}
+}
+
+// view builds the abstract value (sort V of spec/10_values.smt2) of a Tengo
+// object in the current state.
+func (c *cenv) view(x Val) Val {
+	fv := c.fv
+	tp := fv.eng.tpkgs[modPath]
+	ptrTo := func(name string) (types.Type, *types.Struct) {
+		o := tp.Scope().Lookup(name)
+		if o == nil {
+			return nil, nil
+		}
+		st, _ := o.Type().Underlying().(*types.Struct)
+		return types.NewPointer(o.Type()), st
+	}
+	loc := "(idat " + x.T + ")"
+	fld := func(name, field string) Val {
+		_, st := ptrTo(name)
+		_, ft, path := findField(st, field)
+		l := loc
+		for _, p := range path {
+			l = lfield(l, p)
+		}
+		return fv.load(c.st, l, ft)
+	}
+	type arm struct {
+		typ  string
+		term func() string
+	}
+	arms := []arm{
+		{"Undefined", func() string { return "VUndef" }},
+		{"Bool", func() string { return "(VBool " + fld("Bool", "value").T + ")" }},
+		{"Int", func() string { return "(VInt " + fld("Int", "Value").T + ")" }},
+		{"Float", func() string { return "(VFloat " + fld("Float", "Value").T + ")" }},
+		{"Char", func() string { return "(VChar " + fld("Char", "Value").T + ")" }},
+		{"String", func() string { return "(VStr " + fld("String", "Value").T + ")" }},
+		{"Time", func() string { return "(VTime " + fld("Time", "Value").T + ")" }},
+		{"Bytes", func() string { return "(VBytes " + fld("Bytes", "Value").T + ")" }},
+		{"Array", func() string { return "(VArr " + fld("Array", "Value").T + " false)" }},
+		{"ImmutableArray", func() string { return "(VArr " + fld("ImmutableArray", "Value").T + " true)" }},
+		{"Map", func() string {
+			m := fld("Map", "Value")
+			return "(VMap " + m.T + " " + ite(eq(m.T, "LNil"), "#x0000000000000000", fv.mapLen(c.st, fv.mapSorts(m.Typ), m.T)) + " false)"
+		}},
+		{"ImmutableMap", func() string {
+			m := fld("ImmutableMap", "Value")
+			return "(VMap " + m.T + " " + ite(eq(m.T, "LNil"), "#x0000000000000000", fv.mapLen(c.st, fv.mapSorts(m.Typ), m.T)) + " true)"
+		}},
+		{"Error", func() string { return "(VErr " + fld("Error", "Value").T + ")" }},
+	}
+	t := "(VOther (itag " + x.T + ") " + loc + ")"
+	for i := len(arms) - 1; i >= 0; i-- {
+		pt, _ := ptrTo(arms[i].typ)
+		if pt == nil {
+			return c.fail("view: type %s not found", arms[i].typ)
+		}
+		tag := fv.eng.tagOf(pt)
+		t = ite(eq("(itag "+x.T+")", fmt.Sprint(tag)), arms[i].term(), t)
+	}
+	return Val{K: KOpaque, Sort: "V", T: fv.def("view", "V", t)}
 }
